@@ -23,9 +23,9 @@ from llama_agents.server._store.abstract_workflow_store import (
     stream_workflow_ticks,
 )
 from typing_extensions import override
-from workflows.context.serializers import JsonSerializer
+from workflows.context.serializers import BaseSerializer, JsonSerializer
 from workflows.context.state_store import infer_state_type
-from workflows.events import Event, WorkflowIdleEvent
+from workflows.events import Event, StartEvent, WorkflowIdleEvent
 from workflows.runtime.control_loop import (
     rebuild_state_from_ticks,
     rebuild_state_from_ticks_stream,
@@ -206,6 +206,40 @@ class DBOSIdleReleaseDecorator(BaseRuntimeDecorator):
         task = self._deferred_release_tasks.pop(run_id, None)
         if task is not None and not task.done():
             task.cancel()
+
+    @override
+    def run_workflow(
+        self,
+        run_id: str,
+        workflow: Workflow,
+        init_state: BrokerState,
+        start_event: StartEvent | None = None,
+        serialized_state: dict[str, Any] | None = None,
+        serializer: BaseSerializer | None = None,
+    ) -> ExternalRunAdapter:
+        adapter = super().run_workflow(
+            run_id,
+            workflow,
+            init_state,
+            start_event=start_event,
+            serialized_state=serialized_state,
+            serializer=serializer,
+        )
+        # A run starts in the 'active' lifecycle state. Without this row
+        # begin_release()'s compare-and-set never matches and the run is
+        # never released. (Resumes go through _do_resume, where
+        # try_begin_resume has already moved the row back to 'active'.)
+        self._spawn_task(self._create_lifecycle_row(run_id))
+        return adapter
+
+    async def _create_lifecycle_row(self, run_id: str) -> None:
+        try:
+            lifecycle = await self._get_lifecycle()
+            await lifecycle.create(run_id)
+        except Exception:
+            logger.warning(
+                f"Failed to create lifecycle row for run_id={run_id}", exc_info=True
+            )
 
     @override
     def get_internal_adapter(self, workflow: Workflow) -> InternalRunAdapter:
